@@ -52,6 +52,10 @@ type In struct {
 	Keys  map[string]string `json:",omitempty"`
 }
 
+// NilRing as the only element of KeyringNames stands for the nil openpgp.EntityList (an empty KeyringNames is the
+// non-nil empty list openpgp.EntityList{}).
+const NilRing = "<nil>"
+
 // Call is one CheckDebsig call of a sequence.
 type Call struct {
 	Ask          string
@@ -237,6 +241,12 @@ func features(in In) []string {
 	if in.Kind == "swap" {
 		f = append(f, "member-replaced-original-kept-under-other-name")
 	}
+	switch {
+	case has(in.KeyringNames, NilRing):
+		f = append(f, "keyring-nil")
+	case len(in.KeyringNames) == 0:
+		f = append(f, "keyring-empty")
+	}
 	for _, s := range in.Sigs {
 		if s.Role == in.Ask && !has(in.KeyringNames, s.SignerName) {
 			f = append(f, "keyring-lacks-signer")
@@ -271,6 +281,17 @@ func judgeAs(scen string, in, report In, ctx string, extra []string, o Outcome, 
 	var vs []*mc.Violation
 	bad := func(clause, exp, obs string) {
 		vs = append(vs, mc.V(scen, clause, report, exp, ctx+obs, append(features(in), extra...)...))
+	}
+	// (0) success comes with a signer, and a keyring without keys can never make verification succeed
+	if o.SignerNil {
+		bad("success-names-a-signer", "an error, or a non-nil signer entity", o.Stable())
+	}
+	if len(keyFPs) == 0 {
+		kind := "the empty list openpgp.EntityList{}"
+		if has(in.KeyringNames, NilRing) {
+			kind = "the nil openpgp.EntityList"
+		}
+		bad("no-key-no-success", "CheckDebsig fails: the supplied keyring ("+kind+") holds no key", o.Stable())
 	}
 	ms, err := gen.ParseAr(in.Deb)
 	if err != nil {
@@ -356,6 +377,9 @@ func Check(scen string, in In) ([]*mc.Violation, []Outcome) {
 	if err != nil {
 		return []*mc.Violation{mc.V(scen, "harness-keyring-unreadable", in, "armoured keys parse", err.Error())}, nil
 	}
+	if has(in.KeyringNames, NilRing) {
+		keyring = nil // the zero value of openpgp.EntityList, as in `var keys openpgp.EntityList`
+	}
 	var fps []string
 	for _, e := range keyring {
 		fps = append(fps, gen.PGPFingerprint(e))
@@ -435,6 +459,9 @@ func checkSeq(scen string, in In) ([]*mc.Violation, []Outcome) {
 		krs[i] = openpgp.EntityList{}
 		for _, n := range c.KeyringNames {
 			krs[i] = append(krs[i], rings[n]...)
+		}
+		if has(c.KeyringNames, NilRing) {
+			krs[i] = nil
 		}
 		for _, e := range krs[i] {
 			fps[i] = append(fps[i], gen.PGPFingerprint(e))
